@@ -368,6 +368,10 @@ def _set_cfgs():
             out.append({'type': t, 'name': 'type', 'kind': kd})
         out.append({'type': t, 'name': 'bogus', 'kind': 'int'})
         out.append({'type': t, 'name': 'pitch' if 'pitch' not in S.TYPES[t]['names'] else 'note', 'kind': 'int'})
+        if t != 'sysex':
+            # `data` exists on sysex messages only: a valid payload assigned to any other message must be refused
+            out.append({'type': t, 'name': 'data', 'kind': 'ints-tuple'})
+            out.append({'type': t, 'name': 'data', 'kind': 'ints-list'})
     return tuple(out)
 
 
